@@ -1061,8 +1061,24 @@ fn fuzzy_queries(rng: &mut Rng, rm: &BTreeMap<Vec<u16>, Vec<Ph>>) -> Vec<Vec<u16
     qs
 }
 
+/// "the stored syllable begins with the partial one", stated on the COMPONENTS of the two codes (initial = bits 9..,
+/// medial = bits 7..8, rime = bits 3..6, tone = bits 0..2) and NOT through `Syllable::starts_with`, which is the code
+/// under test (a reference that calls it agrees with any defect in it): the partial syllable's components up to and
+/// including its last present one must be equal, whatever follows is free; a partial syllable with a tone is a
+/// whole syllable and must be equal.
 fn starts_with(s: u16, p: u16) -> bool {
-    Syllable::try_from(s).unwrap().starts_with(Syllable::try_from(p).unwrap())
+    let comp = |c: u16| (c >> 9, (c >> 7) & 3, (c >> 3) & 15, c & 7);
+    let (si, sm, sr, st) = comp(s);
+    let (pi, pm, pr, pt) = comp(p);
+    if pt != 0 {
+        (si, sm, sr, st) == (pi, pm, pr, pt)
+    } else if pr != 0 {
+        (si, sm, sr) == (pi, pm, pr)
+    } else if pm != 0 {
+        (si, sm) == (pi, pm)
+    } else {
+        si == pi
+    }
 }
 
 /// the reader part of the statement on `bytes` (produced by either writer) for the input `case`;
